@@ -334,6 +334,8 @@ fn ensure_names(transforms: &[pq::SqlTransform], ctx: &mut AnchorContext) {
         {
             for r in columns {
                 ctx.ensure_column_name(r.column);
+                #[cfg(prqlc_verif)]
+                ctx.verif_ensured(r.column);
             }
         }
     }
